@@ -287,8 +287,8 @@ class Checker:
 def build_scenarios(ctx):
     r = ctx.rng
     quick = ctx.tier == "quick"
-    n_geo = 75 if quick else 1500
-    n_arr = 12 if quick else 150
+    n_geo = 75 if quick else 800
+    n_arr = 12 if quick else 100
     rays_per = 6 if quick else 10
     scen = corpus_scenarios()
     for gi in range(n_geo):
